@@ -36,7 +36,7 @@ BUDGET_S = {'quick': 200, 'thorough': 2400}
 
 
 def check(case) -> Outcome:
-    from vt.simrt.sim import Hang, Sim, StepBound, make_root_task
+    from vt.simrt.sim import Abandon, Hang, Sim, StepBound, make_root_task
     from bqskit.runtime.message import RuntimeMessage as M
     logging.disable(logging.CRITICAL)
     out = Outcome()
@@ -44,7 +44,9 @@ def check(case) -> Outcome:
     has_cancel = P.has_kind(spec, ('mapcancel', 'subcancel', 'forget'))
     P.reset()
     sim = Sim(case['topo'], case['sched'], policy=case.get('policy'),
-              rseed=case['rseed'])
+              rseed=case.get('rseed', 0))
+    sim.rinject = sc.resolve_rinjections(case.get('rinject', []),
+                                         sorted(sim.workers))
     crossing = [0]
     oversize = [0]
     bound_fail = []
@@ -138,6 +140,9 @@ def check(case) -> Outcome:
             return out
         except StepBound:
             out.label('step-bound')
+            return out
+        except Abandon:
+            out.label('inconclusive:interleaving-not-continuable')
             return out
         except RuntimeError as e:
             sig, det = sc.client_error(e)
@@ -263,11 +268,35 @@ def cases(draw, quick=True):
         'policy': draw(st.sampled_from([None, None, 'lazy_recv',
                                         'eager_recv'])),
         'rseed': draw(st.integers(0, 10**6)),
+        'rinject': draw(sc.rinjections),
     }
+
+
+L = {'t': 'leaf'}
+ENUM_PROGS = [
+    {'t': 'map', 'kids': [L] * 5},
+    {'t': 'seq', 'order': [0, 0], 'kids': [
+        {'t': 'map', 'kids': [L, L, L]}, {'t': 'map', 'kids': [L, L]}]},
+    {'t': 'map', 'kids': [{'t': 'map', 'kids': [L, L]}, L, L]},
+]
+ENUM_BASES = [
+    (None, [0]), (None, [3, 1, 0, 2]), ('lazy_recv', [1, 0]),
+    (None, [1, 0, 0, 2, 5, 1]), ('eager_recv', [0, 1]),
+]
+
+
+def enum_cases(quick):
+    return sc.enum_rpreemptions(
+        ENUM_PROGS, ENUM_BASES[:3] if quick else ENUM_BASES,
+        (2,) if quick else (2, 3))
 
 
 def run_shard(ctx: core.Ctx) -> core.ShardResult:
     res = core.ShardResult()
+    done = core.run_enumeration(ctx, res, enum_cases(ctx.tier == 'quick'),
+                                check)
+    res.extra['main_step_inside_submit_handler_enumeration_complete'] = \
+        bool(done)
     core.run_hypothesis(ctx, res, cases(ctx.tier == 'quick'), check,
                         ctx.n(200, 6000))
     return res
